@@ -2,6 +2,7 @@ package checks
 
 import (
 	"bytes"
+	"sort"
 
 	"google.golang.org/protobuf/encoding/protowire"
 	"google.golang.org/protobuf/proto"
@@ -13,7 +14,7 @@ import (
 func init() {
 	core.Register(&core.Check{
 		ID:     "C04",
-		Rule:   "cases: PRNG-filled messages of every linked type (generated, dynamicpb, and lazily decoded copies) x all MarshalOptions combinations (Deterministic, AllowPartial, UseCachedSize after a fresh Size) x prefixes with and without spare capacity; distinct = distinct (type, deterministic encoding); non-trivial = non-empty encoding",
+		Rule:   "cases: PRNG-filled messages of every linked type (generated, dynamicpb, and lazily decoded copies) x all MarshalOptions combinations (Deterministic, AllowPartial, UseCachedSize after a fresh Size) x prefixes with and without spare capacity; every third message is checked again after it was sized and then partly emptied in place through reflection (fields cleared, submessages emptied but left present, no Reset); distinct = distinct (type, deterministic encoding); non-trivial = non-empty encoding",
 		Assume: []string{"none beyond len()"},
 		Batches: func(tier string) []core.Batch {
 			if tier == "thorough" {
@@ -22,7 +23,7 @@ func init() {
 			return stdBatches([]string{"base"}, 16)
 		},
 		Gates: func(tier string) map[string]int64 {
-			return map[string]int64{"size_checks": 5000, "lazy_copies": 100, "nonminimal_lazy": 20, "append_prefix": 1000}
+			return map[string]int64{"size_checks": 5000, "lazy_copies": 100, "nonminimal_lazy": 20, "append_prefix": 1000, "sized_then_emptied": 800}
 		},
 		Run: runC04,
 	})
@@ -41,6 +42,14 @@ func runC04(c *core.Ctx, b core.Batch) {
 			fo.Unknown = keeps
 			gen.Fill(r, m, fo)
 			c04Check(c, r, m, "filled")
+			if k%3 == 1 {
+				// the same message, sized above, then partly emptied in place (no Reset):
+				// submessages that now encode to nothing must not keep their old size
+				if emptyInPlace(r, m, 0) > 0 {
+					c.Count("sized_then_emptied")
+					c04Check(c, r, m, "sized-then-emptied")
+				}
+			}
 			if k%2 == 0 && !dyn {
 				// a lazily decoded, not yet accessed copy (minimal encoding: Size must be exact)
 				enc, err := proto.MarshalOptions{AllowPartial: true}.Marshal(m.Interface())
@@ -190,4 +199,76 @@ func c04Check(c *core.Ctx, r *core.Rand, m protoreflect.Message, origin string) 
 			}
 		}
 	}
+}
+
+// emptyInPlace clears fields of m and of its submessages through reflection,
+// leaving emptied submessages present; returns the number of Clear calls.
+func emptyInPlace(r *core.Rand, m protoreflect.Message, depth int) int {
+	type item struct {
+		fd protoreflect.FieldDescriptor
+		v  protoreflect.Value
+	}
+	var items []item
+	m.Range(func(fd protoreflect.FieldDescriptor, v protoreflect.Value) bool {
+		items = append(items, item{fd, v})
+		return true
+	})
+	sort.Slice(items, func(i, j int) bool { return items[i].fd.Number() < items[j].fd.Number() })
+	n := 0
+	all := func(sub protoreflect.Message) {
+		var fds []protoreflect.FieldDescriptor
+		sub.Range(func(fd protoreflect.FieldDescriptor, _ protoreflect.Value) bool { fds = append(fds, fd); return true })
+		for _, fd := range fds {
+			sub.Clear(fd)
+			n++
+		}
+		if len(sub.GetUnknown()) > 0 {
+			sub.SetUnknown(nil)
+			n++
+		}
+	}
+	sub := func(sm protoreflect.Message) {
+		if !sm.IsValid() {
+			return
+		}
+		if r.Chance(1, 2) || depth >= 3 {
+			all(sm)
+		} else {
+			n += emptyInPlace(r, sm, depth+1)
+		}
+	}
+	for _, it := range items {
+		fd, v := it.fd, it.v
+		switch {
+		case fd.IsMap():
+			if fd.MapValue().Message() != nil {
+				var keys []protoreflect.MapKey
+				v.Map().Range(func(k protoreflect.MapKey, _ protoreflect.Value) bool { keys = append(keys, k); return true })
+				sort.Slice(keys, func(i, j int) bool { return keys[i].String() < keys[j].String() })
+				for _, k := range keys {
+					sub(v.Map().Get(k).Message())
+				}
+			} else if r.Chance(1, 3) {
+				m.Clear(fd)
+				n++
+			}
+		case fd.IsList():
+			if fd.Message() != nil {
+				for i := 0; i < v.List().Len(); i++ {
+					sub(v.List().Get(i).Message())
+				}
+			} else if r.Chance(1, 3) {
+				m.Clear(fd)
+				n++
+			}
+		case fd.Message() != nil:
+			sub(m.Mutable(fd).Message())
+		default:
+			if r.Chance(1, 3) {
+				m.Clear(fd)
+				n++
+			}
+		}
+	}
+	return n
 }
